@@ -44,6 +44,10 @@ def gen(seed, tier):
             out.append(f"index_to_coord {lst(sh)} {z(i)}")
         for c in itertools.product(*[range(0, d + 1) for d in sh]):
             out.append(f"index_at {lst(sh)} {lst(list(c))}")
+    # larger extents, powers of two and neighbours on every axis position
+    for sh in ([8], [16], [33], [64], [3, 8], [8, 3], [4, 4], [5, 16], [16, 5], [2, 3, 8], [2, 8, 3], [8, 2, 3], [3, 16, 2],
+               [3, 2, 4, 2], [7, 9], [2, 32]):
+        per_shape(sh, out, full=prod(sh) <= 64)
     nrand = 40 if tier == "quick" else 600
     for _ in range(nrand):
         sh = [rng.randint(1, 7) for _ in range(rng.randint(1, 5))]
